@@ -215,7 +215,7 @@ pub fn run(ctx: &Ctx) {
             menu.push(Entry { key: k, msg: m, corrupt: c });
         }
     }
-    let max_len = if quick { 2 } else { 3 };
+    let max_len = if quick { 2 } else if ctx.deep { 4 } else { 3 };
     ctx.bound("batch_machine_max_len", json!(max_len));
     ctx.bound("entry_menu", json!(menu.len()));
     let m = Machine { w: World::new(3, 3), menu, max_len, ctx: ctx as *const Ctx as usize };
